@@ -124,6 +124,43 @@ def c08_recognition(ctx, p):
     ctx.check(got == ref, f'token spans {got} differ from the left-to-right scan {ref}', c08_role(src, ds, de, ref, got))
 
 
+@harness('c08_doc', covers=['tag-present'])
+def c08_doc(ctx, p):
+    """concrete documents around partial / doubled / truncated delimiters, with one-byte holes between the pieces"""
+    ds, de = list(p['ds'].encode()), list(p['de'].encode())
+    src = []
+    for k, piece in enumerate(p['pieces']):
+        if isinstance(piece, int):
+            src += ctx.bytes(f'g{k}', piece)
+        else:
+            src += list(piece.encode())
+    ref = scan_tags(ctx, src, ds, de)
+    if any(s_[0] == 'E' for s_ in ref):
+        ctx.cover('tag-present')
+    toks = ctx.impl.tokenize(src, ds, de)
+    got = [(t['kind'], t['bs'], t['be']) for t in toks]
+    ctx.check(got == ref, f'token spans {got} differ from the left-to-right scan {ref}', c08_role(src, ds, de, ref, got))
+
+
+def c08_doc_jobs(tier):
+    jobs = []
+    pairs = [POOL[1], POOL[2], POOL[3], POOL[8]] if tier == 'quick' else [q for q in POOL if len(q[0]) > 1 or len(q[1]) > 1]
+    for ds, de in pairs:
+        docs = []
+        for k in range(len(de)):   # one character of the end delimiter doubled
+            docs.append(('doubled end-delimiter char %d' % k, [1, ds, 'a', de[:k + 1] + de[k] + de[k + 1:], 1, ds, '/a', de, 1]))
+        for k in range(len(ds)):
+            docs.append(('doubled start-delimiter char %d' % k, [1, ds[:k + 1] + ds[k] + ds[k + 1:], 'a', de, 1]))
+        for k in range(1, len(de)):
+            docs.append(('truncated end delimiter (%d chars) at end of input' % k, [1, ds, 'a', 1, de[:k]]))
+        docs.append(('stray end delimiter before the first tag', [1, de, 1, ds, 'a', de, 1]))
+        docs.append(('end delimiter directly after start delimiter', [ds, de, 1, de, 1]))
+        docs.append(('start delimiter inside a tag', [1, ds, 'a', ds, 1, de, 1]))
+        for lab, pieces in docs:
+            jobs.append(dict(harness='c08_doc', label=f'{lab}: ds={ds!r} de={de!r}', params=dict(ds=ds, de=de, pieces=pieces)))
+    return jobs
+
+
 @harness('c08_template', covers=['tag-present', 'tag-after-partial-start', 'partial-end-inside-body'])
 def c08_template(ctx, p):
     """hole ds hole de hole : holes may contain delimiter characters"""
@@ -262,7 +299,7 @@ def oracle_pairing(ctx, toks):
         else:
             d = None
             for k in range(len(stack) - 1, -1, -1):
-                if ctx.branch(b_eq(stack[k][1], t[1])):
+                if ctx.branch(bytes_eq(stack[k][1], t[1])):
                     d = k
                     break
             if d is None:
@@ -299,9 +336,13 @@ def flatten(tree):
 @harness('c10_pairing', covers=['same-name-nesting', 'crossing-tags', 'stray-close', 'unclosed-open', 'demoted-with-children'])
 def c10_pairing(ctx, p):
     L = p['len']
-    names = {k: ctx.bytes(k, 1, only=tuple(range(97, 123)))[0] for k in ('x', 'y', 'z')}
+    # x, z: one letter; y: one or two letters (so one name can be a suffix / prefix of another, not only equal or distinct)
+    names = {k: ctx.bytes(k, p.get('ylen', 1) if k == 'y' else 1, only=tuple(range(97, 123))) for k in ('x', 'y', 'z')}
     src = []
     toks = []
+    for k in p.get('prefix', []):   # concrete inert tags in front: 'o' = opener of a name that is never closed, 'c' = stray closer
+        src += [60] + ([47] if k == 'c' else []) + [119, 119, 119, 62]
+        toks.append(('O', [119, 119, 119]) if k == 'o' else ('C', [119, 119, 119]))
     for i in range(L):
         k = SLOT_KINDS[ctx.choice(f'slot{i}', len(SLOT_KINDS))]
         if k == 'text':
@@ -310,10 +351,10 @@ def c10_pairing(ctx, p):
             src += [116]
             toks.append(('T',))
         elif k.startswith('open'):
-            src += [60, names[k[-1]], 62]
+            src += [60] + names[k[-1]] + [62]
             toks.append(('O', names[k[-1]]))
         else:
-            src += [60, 47, names[k[-1]], 62]
+            src += [60, 47] + names[k[-1]] + [62]
             toks.append(('C', names[k[-1]]))
     exp = oracle_pairing(ctx, toks)
     flat_e = [n for n in exp if n[0] == 'E']
@@ -335,11 +376,7 @@ def c10_pairing(ctx, p):
         ctx.cover('stray-close')
     for n, d in els:
         for m, d2 in walk(n[3], 0):
-            if not ctx.symbolic:
-                if toks[n[1]][1] == toks[m[1]][1]:
-                    ctx.cover('same-name-nesting')
-            else:
-                cover_if(ctx, 'same-name-nesting', b_eq(toks[n[1]][1], toks[m[1]][1]))
+            cover_if(ctx, 'same-name-nesting', bytes_eq(toks[n[1]][1], toks[m[1]][1]))
         inner_opens = [j for j in range(n[1] + 1, n[2]) if toks[j][0] == 'O']
         closed_inside = {m[1] for m, _ in walk(n[3], 0)}
         demoted = [j for j in inner_opens if j not in closed_inside]
